@@ -77,16 +77,45 @@ Proof.
 Qed.
 
 (* figure level: invert k1 after invert k2 = invert (k1 + k2), for all k in Z *)
-Lemma invert_fig_add f k1 k2 f2 :
-  invert_fig f k2 = Some f2 -> invert_fig f2 k1 = invert_fig f (k1 + k2).
+Lemma invert_fig0_add f k1 k2 f2 :
+  invert_fig0 f k2 = Some f2 -> invert_fig0 f2 k1 = invert_fig0 f (k1 + k2).
 Proof.
-  unfold invert_fig.
+  unfold invert_fig0.
   destruct (sindex f four_family) as [i|] eqn:E4.
   - intros [= <-]. rewrite (rot_four i k2 (sindex_bound _ _ _ E4)).
     f_equal. apply (rot_rot four_family 4); [reflexivity|lia].
   - destruct (sindex f three_family) as [i|] eqn:E3; [|discriminate].
     intros [= <-]. rewrite rot_four_not_three, (rot_three i k2 (sindex_bound _ _ _ E3)).
     f_equal. apply (rot_rot three_family 3); [reflexivity|lia].
+Qed.
+
+Lemma sindex_some_not5 f fam i : (fam = four_family \/ fam = three_family) -> sindex f fam = Some i -> canon_fig f = f.
+Proof.
+  intros Hf H. unfold canon_fig. destruct (String.eqb f "5") eqn:E; [|reflexivity].
+  apply String.eqb_eq in E. subst f. destruct Hf as [->| ->]; vm_compute in H; discriminate.
+Qed.
+
+Lemma rot_in_in fam i k : fam <> [] -> In (rot_in fam i k) fam.
+Proof.
+  intros Hne. unfold rot_in. apply nth_In.
+  assert (0 < Z.of_nat (length fam)) by (destruct fam; [congruence|cbn [length]; lia]).
+  pose proof (Z.mod_pos_bound (Z.of_nat i + k) (Z.of_nat (length fam)) H). lia.
+Qed.
+
+Lemma invert_fig0_canon f k f2 : invert_fig0 f k = Some f2 -> canon_fig f2 = f2.
+Proof.
+  unfold invert_fig0. destruct (sindex f four_family) as [i|].
+  - intros [= <-]. pose proof (rot_in_in four_family i k ltac:(discriminate)) as H.
+    cbn [four_family In] in H. destruct H as [<-|[<-|[<-|[<-|[]]]]]; reflexivity.
+  - destruct (sindex f three_family) as [i|]; [|discriminate].
+    intros [= <-]. pose proof (rot_in_in three_family i k ltac:(discriminate)) as H.
+    cbn [three_family In] in H. destruct H as [<-|[<-|[<-|[]]]]; reflexivity.
+Qed.
+
+Lemma invert_fig_add f k1 k2 f2 :
+  invert_fig f k2 = Some f2 -> invert_fig f2 k1 = invert_fig f (k1 + k2).
+Proof.
+  unfold invert_fig. intros H. rewrite (invert_fig0_canon _ _ _ H). exact (invert_fig0_add _ k1 k2 _ H).
 Qed.
 
 Lemma sindex_nth x l i : sindex x l = Some i -> nth i l ""%string = x.
@@ -101,16 +130,24 @@ Lemma invert_fig_full_turn f q :
   (sindex f four_family <> None -> invert_fig f (4 * q) = Some f) /\
   (sindex f three_family <> None -> sindex f four_family = None -> invert_fig f (3 * q) = Some f).
 Proof.
-  unfold invert_fig, rot_in. split.
-  - destruct (sindex f four_family) as [i|] eqn:E; [|congruence]. intros _. f_equal.
+  split.
+  - intros H4. destruct (sindex f four_family) as [i|] eqn:E; [|congruence].
+    unfold invert_fig. rewrite (sindex_some_not5 f four_family i (or_introl eq_refl) E).
+    unfold invert_fig0, rot_in. rewrite E. f_equal.
     change (Z.of_nat (length four_family)) with 4.
     rewrite (Z.mul_comm 4 q), Z.mod_add, Z.mod_small by (pose proof (sindex_bound _ _ _ E); cbn in *; lia).
     rewrite Nat2Z.id. apply sindex_nth. exact E.
-  - intros H3 H4. rewrite H4. destruct (sindex f three_family) as [i|] eqn:E; [|congruence]. f_equal.
+  - intros H3 H4. destruct (sindex f three_family) as [i|] eqn:E; [|congruence].
+    unfold invert_fig. rewrite (sindex_some_not5 f three_family i (or_intror eq_refl) E).
+    unfold invert_fig0, rot_in. rewrite H4, E. f_equal.
     change (Z.of_nat (length three_family)) with 3.
     rewrite (Z.mul_comm 3 q), Z.mod_add, Z.mod_small by (pose proof (sindex_bound _ _ _ E); cbn in *; lia).
     rewrite Nat2Z.id. apply sindex_nth. exact E.
 Qed.
+
+(* the explicit root position '5' inverts like '': never an error, and three inversions bring back the root position *)
+Lemma invert_fig_five k : invert_fig "5" k = invert_fig "" k.
+Proof. reflexivity. Qed.
 
 (* the inversion index of the k-th inversion of a root-position triad / seventh is k mod n *)
 Lemma inversion_index_of_invert k :
